@@ -124,7 +124,7 @@ def gen_labels(rng, big):
     layout = rng.choice(["dense", "ties", "half", "spread", "mixed", "dense", "ties", "one"])
     wpal = rng.choice([[10, 20, 50], [50], [5.5, 12.5, 40], [3, 7.25, 33.3], [1, 2, 3], [60, 120, 300],
                        [24.9, 28.1, 18.3, 17.3], [0.1, 0.7, 1.3]])
-    base = rng.choice([0, 0, 100, -50, 250.5])
+    base = rng.choice([0, 0, 100, -50, 250.5, -5, -3])
     span = rng.choice([20, 100, 400, 1000])
     pos2w = {}
     labels = []
@@ -240,6 +240,22 @@ def gen_plan(rng, tier):
     neng = rng.choice([1, 1, 2, 3])
     big = rng.random() < (0.02 if tier == "quick" else 0.05)
     sets = [gen_labels(rng, big and i == 0) for i in range(nsets)]
+    for i in range(1, nsets):
+        if rng.random() < 0.35:
+            # a near-twin of the previous set: one label moved by one unit (or dropped /
+            # duplicated) - label sets that agree in almost everything
+            twin = [list(t) for t in sets[i - 1]]
+            widths = {p: w for p, w in twin}
+            j = rng.randrange(len(twin))
+            how = rng.random()
+            if how < 0.6:
+                newp = twin[j][0] + rng.choice([1, -1])
+                twin[j] = [newp, widths.get(newp, twin[j][1])]
+            elif how < 0.8 and len(twin) > 1:
+                del twin[j]
+            else:
+                twin.append(list(twin[j]))
+            sets[i] = twin
     enabled = {k: rng.random() < 0.5 for k in ("abort", "stack", "stale", "badcfg")}
     if rng.random() < 0.25:
         enabled = {k: False for k in enabled}  # a fault-free configuration
@@ -344,6 +360,8 @@ def gen_plan(rng, tier):
         if engine_set.get(e) is not None and rng.random() < 0.7:
             ops.append(["compute", e])
     plan = {"sim": NAME, "sets": sets, "ops": ops, "enabled": enabled}
+    if rng.random() < 0.15:
+        plan["pyopt"] = 1  # environment: the library compiled as under `python -O`
     if tier == "thorough" and rng.random() < 0.004:
         plan["cold_crosscheck"] = True
     return plan
@@ -597,6 +615,11 @@ def _stale_flags(labels, stats):
 
 
 def _run(plan):
+    if plan.get("pyopt"):
+        # the library as `python -O` compiles it (assert statements stripped)
+        from ..util import reimport_labella
+
+        reimport_labella(optimize=1)
     from labella.distributor import Distributor
     from labella.force import Force
     from labella.node import Node
@@ -1099,6 +1122,10 @@ def _run(plan):
 
 def _reference(job):
     """Pristine child: fresh engine, fresh labels in canonical order."""
+    if job.get("pyopt"):
+        from ..util import reimport_labella
+
+        reimport_labella(optimize=1)
     from labella.force import Force
     from labella.node import Node
 
@@ -1141,7 +1168,7 @@ def execute(plan):
             continue
         key = h64([cp["opts"], sorted(cp["labels"])])
         if key not in cache:
-            cache[key] = run_isolated(_reference, {"opts": cp["opts"], "labels": cp["labels"]})
+            cache[key] = run_isolated(_reference, {"opts": cp["opts"], "labels": cp["labels"], "pyopt": plan.get("pyopt")})
             counters["references_computed"] = counters.get("references_computed", 0) + 1
             if plan.get("cold_crosscheck") and not counters.get("cold_reference_crosschecks"):
                 from ..driver import cold_reference
